@@ -398,6 +398,10 @@ class GState:
         self._is_tool_active = (mode != SpinMode.OFF)
         self._current_spin_mode = mode
 
+        # The stop code (M05) halts the tool however it was started
+        if mode == SpinMode.OFF:
+            self._current_power_mode = PowerMode.OFF
+
     @typechecked
     def _set_power_mode(self, mode: PowerMode, power: float = 0) -> None:
         """Set the current tool power mode and level.
@@ -420,6 +424,10 @@ class GState:
         self._current_tool_power = power if mode != PowerMode.OFF else 0
         self._is_tool_active = (mode != PowerMode.OFF)
         self._current_power_mode = mode
+
+        # The stop code (M05) halts the tool however it was started
+        if mode == PowerMode.OFF:
+            self._current_spin_mode = SpinMode.OFF
 
     @typechecked
     def _set_tool_number(self, mode: ToolSwapMode, tool_number: int) -> None:
